@@ -79,18 +79,99 @@ def ctor_records_every_ref(ctx, rule):
             and norm(n.ast.targets[0].value) == "refs" and norm(n.ast.value) == "ref"]
     ctx.require(recs, "_setup_params no longer records refs[name] = ref")
     for n in recs:
-        inner = []
+        # every branch fact that must hold at the store and talks about a result of the _resolve_ref call
+        res_names = set()
         for d in spc_.dominating(n):
-            if d.kind == "br":
-                inner = [(norm(e), t) for e, t in decompose(d.ast, d.polarity)]
-                break
+            if d.kind == "stmt" and isinstance(d.ast, ast.Assign) and isinstance(d.ast.value, ast.Call) and norm(d.ast.value.func).endswith("_resolve_ref"):
+                res_names = {x.id for t in d.ast.targets for x in ast.walk(t) if isinstance(x, ast.Name)}
+        ctx.require(res_names, "the constructor's _resolve_ref call does not dominate refs[name] = ref")
+        inner = []
+        for e, t in spc_.conditions(n):
+            if {x.id for x in ast.walk(e) if isinstance(x, ast.Name)} & res_names:
+                inner.append((norm(e), t))
+        inner = sorted(set(inner))
         if inner == [("ref is None", False)] or inner == [("ref is not None", True)]:
             ctx.ok(rule, sp_, n, "constructor records every reference (guard: ref is not None)")
         else:
-            ctx.fail(rule, sp_, n, "the constructor records a reference only when %s: other references are evaluated but never entered in refs, so a later override "
-                                   "can neither end the link nor cancel a pending asynchronous evaluation" % (" and ".join("%s is %s" % x for x in inner)),
+            ctx.fail(rule, sp_, n, "the constructor records a reference only when %s: other references are evaluated but never entered in refs, so no watcher is installed for them "
+                                   "(later source updates never arrive) and a later override can neither end the link nor cancel a pending asynchronous evaluation" % (
+                                       " and ".join("%s is %s" % x for x in inner)),
                      key=sp_.qualname + "::conditional-ref-recording",
-                     input="P(x=coro_fn_without_dependencies); p.x = 'plain' while pending -> the stale async result overwrites 'plain'")
+                     input="P(x=bind(fn, src.param.v)) where fn raises Skip for the initial value; src.v = <valid> later -> p.x never updates")
+
+
+def syncing_set_replaced(ctx, rule):
+    """_syncing must replace the syncing set by a fresh object and restore the saved one."""
+
+    sy = ctx.repo.func("param.parameterized._syncing")
+    al = ctx.facts.local_aliases(sy)
+    saves = {t.id for st in ast.walk(sy.node) if isinstance(st, ast.Assign) and ctx.facts.field_of(st.value, al) == "private.syncing" for t in st.targets if isinstance(t, ast.Name)}
+    ctx.require(saves, "_syncing no longer saves the syncing set")
+    bad = None
+    for st in ast.walk(sy.node):
+        if isinstance(st, ast.AugAssign) and (ctx.facts.field_of(st.target, al) == "private.syncing" or (isinstance(st.target, ast.Name) and st.target.id in saves)):
+            bad = st
+        if isinstance(st, ast.Call) and isinstance(st.func, ast.Attribute) and st.func.attr in ("add", "update", "discard", "remove", "clear", "difference_update", "__ior__") \
+                and (ctx.facts.field_of(st.func.value, al) == "private.syncing" or (isinstance(st.func.value, ast.Name) and st.func.value.id in saves)):
+            bad = st
+    if bad is not None:
+        ctx.fail(rule, sy, bad, "`%s` mutates in place the very set object that was saved for the restore: the names stay marked as syncing after the scope, so a later plain "
+                                   "assignment is taken for the sync's own write and does not cancel the pending reference" % norm(bad), key=sy.qualname + "::saved-set-mutated-in-place",
+                 input="a reference delivers one value to p.x; later p.x = coro_ref (pending); p.x = 'plain'; the coroutine completes -> p.x holds the stale result")
+    else:
+        ctx.ok(rule, sy, sy.node, "the syncing set is replaced, never mutated in place")
+
+
+
+def comparator_model(ctx, rule):
+    """Comparator.compare_iterator / compare_mapping interpreted abstractly on small containers of
+    abstract elements (element equality = identity of the abstract element): equal iff same container
+    type, same length / key set and pairwise-equal elements."""
+    from engine.absint import Interp, Obj, Unsupported
+    from engine.loader import AnalysisError
+    x, y, z = Obj("x"), Obj("y"), Obj("z")
+    cases = {
+        "compare_iterator": [
+            ([x, y], [x, y], True), ([x, y], [x, z], False), ([x, y], [z, y], False), ([x], [x, y], False), ([x, y], [x], False),
+            ([x, y], (x, y), False), ([], [], True), ((x, y), (x, y), True), ([x, y], [y, x], False), ([None, x], [None, x], True), ([None], [x], False),
+        ],
+        "compare_mapping": [
+            ({"a": x, "b": y}, {"a": x, "b": y}, True), ({"a": x, "b": y}, {"b": y, "a": x}, True), ({"a": x, "b": y}, {"a": x, "b": z}, False),
+            ({"a": x, "b": y}, {"a": x, "c": y}, False), ({"a": x, "b": y}, {"c": x, "d": y}, False), ({"a": x}, {"a": x, "b": y}, False),
+            ({"a": x, "b": y}, {"a": x}, False), ({}, {}, True), ({"a": x}, {"b": x}, False),
+            # None is a legal value: a missing key must not be mistaken for a key holding None
+            ({"a": x, "b": None}, {"a": x, "c": y}, False), ({"a": None}, {"b": None}, False), ({"a": x, "c": y}, {"a": x, "b": None}, False), ({"a": None}, {"a": None}, True),
+        ],
+    }
+
+    def hook(fn, args, kwargs):
+        if fn == "cls.is_equal" and len(args) == 2:
+            return args[0] is args[1]
+        if fn == "type" and len(args) == 1:
+            return type(args[0]).__name__
+        return NotImplemented
+    for m, cs in cases.items():
+        g = ctx.repo.method(P + "Comparator", m)
+        bad = []
+        for o1, o2, want in cs:
+            it = Interp(ctx.hier, call_hook=hook, strict_self_calls=True)
+            try:
+                outs = it.run_all(g, {g.params[0]: Obj("Comparator"), g.params[1]: o1, g.params[2]: o2})
+            except Unsupported as e:
+                raise AnalysisError("absint cannot interpret Comparator.%s: %s -- %s cannot decide" % (m, e, rule))
+            ctx.abstract_cases += 1
+            if len(outs) != 1 or outs[0].imprecise or outs[0].kind != "return" or outs[0].value not in (True, False):
+                raise AnalysisError("absint imprecise on Comparator.%s(%r, %r): %s" % (m, o1, o2, outs[0].notes[:2] if outs else "no outcome"))
+            if outs[0].value is not want:
+                bad.append((o1, o2, outs[0].value, want))
+        if bad:
+            o1, o2, got, want = bad[0]
+            ctx.fail(rule, g, g.node, "Comparator.%s(%r, %r) answers %s, specification %s: %s" % (
+                m, o1, o2, got, want, "a genuine change is reported as no change, so changes-only watchers (and every reactive expression downstream) are not notified" if got
+                else "equal values are reported as a change"), key="%s::comparer-model::%s" % (g.qualname, "false-equal" if got else "false-change"),
+                input="p.d = {'a': 1, 'b': 2}; p.d = {'a': 1, 'c': 2} -> no event")
+        else:
+            ctx.ok(rule, g, g.node, "%d/%d abstract container pairs agree (type, size, key set, element-wise equality)" % (len(cs), len(cs)))
 
 
 def flush_model(ctx, rule):
@@ -110,14 +191,17 @@ def flush_model(ctx, rule):
             "w2": Obj("w2", precedence=-1, parameter_names=["a", "b"], what="value", queued=False, onlychanged=False),
             "w3": Obj("w3", precedence=0, parameter_names=["b"], what="value", queued=True, onlychanged=True),
             "w4": Obj("w4", precedence=1, parameter_names=["a"], what="value", queued=False, onlychanged=True),
+            "w5": Obj("w5", precedence=0, parameter_names=["a", "b"], what="value", queued=False, onlychanged=True),
         }
-    event_seqs = [["a1"], ["a1", "b1"], ["a1", "b1", "a2"], ["b1", "a1"], ["a1", "a2"]]
+    # a0: an assignment of the value `a` already holds (queued on behalf of a set-watcher); what a
+    # watcher qualifies for is decided when the event is queued, not again at the flush
+    event_seqs = [["a1"], ["a1", "b1"], ["a1", "b1", "a2"], ["b1", "a1"], ["a1", "a2"], ["a1", "a0", "b1"], ["a0", "b1"]]
     n, bad = 0, []
     for evnames in event_seqs:
         for r in (1, 2, 3):
-            for order in itertools.permutations(["w1", "w2", "w3", "w4"], r):
+            for order in itertools.permutations(["w1", "w2", "w3", "w4", "w5"], r):
                 ws = mk_watchers()
-                events = [Obj(e, name=e[0], what="value", id=e) for e in evnames]
+                events = [Obj(e, name=e[0], what="value", id=e, changed=not e.endswith("0")) for e in evnames]
                 ns = Obj("ns", _events=list(events), _state_watchers=[ws[k] for k in order], _TRIGGER=False, self_or_cls=Obj("owner"))
                 runs = []
                 cascade = {"done": False}
@@ -127,6 +211,8 @@ def flush_model(ctx, rule):
                         return args[1]
                     if fn == "_batch_call_watchers":
                         return Obj("scope")
+                    if fn.endswith("._changed") and len(args) == 1 and isinstance(args[0], Obj):
+                        return args[0].attrs.get("changed", True)
                     if fn.endswith("._execute_watcher"):
                         if not (len(args) == 2 and isinstance(args[0], Obj) and isinstance(args[1], (list, tuple)) and all(isinstance(e, Obj) for e in args[1])):
                             raise AnalysisError("flush model: _execute_watcher is called with arguments the model cannot follow (%r)" % (args,))
@@ -139,7 +225,7 @@ def flush_model(ctx, rule):
                         return None
                     return NotImplemented
                 wc = Obj("wc", precedence=0, parameter_names=["c"], what="value", queued=False, onlychanged=True)
-                it = Interp(ctx.hier, call_hook=hook)
+                it = Interp(ctx.hier, call_hook=hook, strict_self_calls=True)
                 try:
                     outs = it.run_all(fl, {"self_": ns})
                 except Unsupported as e:
